@@ -109,6 +109,17 @@ func drawC19(rt *rapid.T) (*c19Case, *gspec.Grammar) {
 		c.Flags.Nolint = gspec.U(rt, 3, "nolint") == 0
 		return c, g
 	}
+	if gspec.U(rt, 25, "c19multiscc") == 0 {
+		// several separate groups of mutually left-recursive rules behind one start rule
+		g = gspec.MultiSCCGen().Draw(rt, "multiscc")
+		c.Kind = "multiscc"
+		c.Flags.LeftRec = gspec.U(rt, 8, "leftrec") != 0
+		c.Text = gspec.Print(g, gspec.PrintOpts{StubCode: true, Layout: gspec.U(rt, 3, "layout")})
+		c.Flags.OptimizeParser = gspec.U(rt, 3, "optparser") == 0
+		c.Flags.OptimizeGrammar = gspec.U(rt, 4, "optgrammar") == 0
+		c.Flags.Nolint = gspec.U(rt, 3, "nolint") == 0
+		return c, g
+	}
 	switch {
 	case k < 5:
 		g = gspec.LRHuntGen().Draw(rt, "lrhunt")
